@@ -1,1 +1,537 @@
-// placeholder
+// C12 scenarios — child module of `protocol::dp`.
+//
+//  * c12_noise   : dp_for_histogram with the discrete-Laplace mechanism on three helpers, output widths
+//                  8/16/32 bits, 32/256 buckets: released bucket = exact + three pairwise draws (mod 2^w).
+//                  The raw draws are re-derived in a twin world with the same seed from the same PRSS
+//                  streams, and the oracle does its own signed arithmetic.
+//  * c12_padding : apply_dp_padding on both report kinds: equal dummy counts on all helpers, dummies are
+//                  consistent sharings of zero-contribution rows; a forged count message is rejected.
+//  * c12_law     : (ride-along, no schedule in it) the sampler and the truncation point against the
+//                  documented law on a seeded (epsilon, delta, sensitivity) grid; constructor ranges.
+
+use std::{
+    collections::BTreeMap,
+    sync::{
+        Arc as StdArc, Mutex as StdMutex,
+        atomic::{AtomicBool, Ordering as AO},
+    },
+};
+
+use rand::{SeedableRng, rngs::StdRng};
+use serde_json::{Value, json};
+
+use super::{NoiseParams, dp_for_histogram, step::DPStep};
+use crate::{
+    ff::{
+        U128Conversions,
+        boolean::Boolean,
+        boolean_array::{BA3, BA8, BA16, BA32, BA64},
+    },
+    helpers::{Direction, Role, query::DpMechanism},
+    protocol::{
+        context::{Context, UpgradableContext, dzkp_validator::DZKPValidator},
+        hybrid::step::HybridStep,
+        ipa_prf::oprf_padding::{PaddingParameters, apply_dp_padding, insecure::OPRFPaddingDp},
+    },
+    report::hybrid::{AggregateableHybridReport, IndistinguishableHybridReport},
+    secret_sharing::{
+        BitDecomposed, IntoShares, SharedValue, TransposeFrom,
+        replicated::{ReplicatedSecretSharing, semi_honest::AdditiveShare as Replicated},
+    },
+    test_fixture::{Runner, TestWorld},
+    verif::{
+        c05_shuffle::Shared3,
+        faults::{self, *},
+        sim::*,
+        world::*,
+    },
+};
+use crate::protocol::context::MaliciousProtocolSteps;
+
+pub fn scenarios() -> Vec<&'static dyn Scenario> {
+    vec![&NoiseScenario, &PaddingScenario, &LawScenario]
+}
+
+// ------------------------------------------------------------------------------------------------
+// c12_noise
+// ------------------------------------------------------------------------------------------------
+
+pub struct NoiseScenario;
+
+impl Scenario for NoiseScenario {
+    fn name(&self) -> &'static str {
+        "c12_noise"
+    }
+    fn generate(&self, seed: u64, _tier: Tier) -> Value {
+        let mut r = Rng::sub(seed, 12_01);
+        let w = r.pick(&[8usize, 16, 32, 32]);
+        let b = r.pick(&[32usize, 256]);
+        // epsilon: small values give wide noise (shift n up to a few dozen), large ones concentrate on -1,0,1
+        let eps_milli = r.pick(&[300u64, 500, 1000, 2000, 5000, 10000]);
+        let mask: u64 = if w == 32 { 0xffff_ffff } else { (1 << w) - 1 };
+        let hist: Vec<u64> = (0..b).map(|_| match r.below(6) {
+            0 => 0,
+            1 => mask,
+            2 => mask - r.below(3) as u64,
+            _ => r.next_u64() & mask,
+        }).collect();
+        let mut knobs = draw_knobs(&mut r);
+        knobs["active"] = json!(r.pick(&[8usize, 16, 32]));
+        json!({"w": w, "b": b, "eps_milli": eps_milli, "hist": hist, "malicious": r.chance(1, 2), "share_seed": r.next_u64() >> 12,
+            "knobs": knobs, "sched": SchedSpec::draw(&mut r, 20_000, 20_000_000)})
+    }
+    fn exec(&self, p: &Value, explicit: Option<Vec<u32>>) -> RunRes {
+        match (pu(p, "w"), pu(p, "b")) {
+            (8, 32) => noise_exec::<BA8, 32>(p, explicit),
+            (8, 256) => noise_exec::<BA8, 256>(p, explicit),
+            (16, 32) => noise_exec::<BA16, 32>(p, explicit),
+            (16, 256) => noise_exec::<BA16, 256>(p, explicit),
+            (32, 32) => noise_exec::<BA32, 32>(p, explicit),
+            (32, 256) => noise_exec::<BA32, 256>(p, explicit),
+            _ => RunRes::invalid("noise: width/buckets"),
+        }
+    }
+}
+
+const SS_BITS: usize = 3;
+
+trait NoiseInst<const B: usize>: crate::ff::boolean_array::BooleanArray + U128Conversions + IntoShares<Replicated<Self>> {
+    fn run(p: &Value, spec: &SchedSpec, hist: &[u64]) -> (SimOutcome, BTreeMap<usize, Result<Vec<(u128, u128)>, String>>, BTreeMap<(usize, usize), Vec<u32>>);
+}
+
+macro_rules! noise_inst {
+    ($ov:ty, $b:literal) => {
+        impl NoiseInst<$b> for $ov {
+            fn run(p: &Value, spec: &SchedSpec, hist: &[u64]) -> (SimOutcome, BTreeMap<usize, Result<Vec<(u128, u128)>, String>>, BTreeMap<(usize, usize), Vec<u32>>) {
+                let eps = pu64(p, "eps_milli") as f64 / 1000.0;
+                let malicious = pb(p, "malicious");
+                let knobs = &p["knobs"];
+                let (active, read_size, world_seed) = (pu(knobs, "active"), pu(knobs, "read_size"), pu64(knobs, "world_seed"));
+                let share_seed = pu64(p, "share_seed");
+                let log: StdArc<StdMutex<BTreeMap<usize, Result<Vec<(u128, u128)>, String>>>> = StdArc::new(StdMutex::new(BTreeMap::new()));
+                let draws: StdArc<StdMutex<BTreeMap<(usize, usize), Vec<u32>>>> = StdArc::new(StdMutex::new(BTreeMap::new()));
+                let (log2, draws2) = (StdArc::clone(&log), StdArc::clone(&draws));
+                let hist: Vec<u64> = hist.to_vec();
+                let outcome = sim_async(spec, StdArc::new(AtomicBool::new(false)), move || {
+                    let (log, draws, hist) = (StdArc::clone(&log2), StdArc::clone(&draws2), hist.clone());
+                    async move {
+                        let cfg = world_config(world_seed, active, read_size, None);
+                        // ---- the system under test ----
+                        let world = TestWorld::new_with(&cfg);
+                        let mut rng = StdRng::seed_from_u64(share_seed);
+                        let mut per: [Vec<Replicated<$ov>>; 3] = [Vec::new(), Vec::new(), Vec::new()];
+                        for v in &hist {
+                            let s: [Replicated<$ov>; 3] = <$ov>::truncate_from(u128::from(*v)).share_with(&mut rng);
+                            for h in 0..3 {
+                                per[h].push(s[h].clone());
+                            }
+                        }
+                        let log = &log;
+                        macro_rules! body {
+                            ($ctx:ident, $rows:ident) => {{
+                                let h = role_idx($ctx.role());
+                                let arr: [Replicated<$ov>; $b] = $rows.try_into().map_err(|_| ()).expect("B rows");
+                                let bits = BitDecomposed::<Replicated<Boolean, $b>>::transposed_from(&arr).unwrap();
+                                let r = dp_for_histogram::<_, $b, $ov, SS_BITS>($ctx, bits, DpMechanism::DiscreteLaplace { epsilon: eps }).await;
+                                log.lock().unwrap().insert(h, r.map(|v| v.iter().map(|s| (s.left().as_u128(), s.right().as_u128())).collect()).map_err(|e| e.to_string()));
+                            }};
+                        }
+                        if malicious {
+                            world.malicious(Shared3(per), |ctx, rows: Vec<Replicated<$ov>>| async move { body!(ctx, rows) }).await;
+                        } else {
+                            world.semi_honest(Shared3(per), |ctx, rows: Vec<Replicated<$ov>>| async move { body!(ctx, rows) }).await;
+                        }
+                        drop(world);
+                        // ---- twin world, same seed: re-derive the raw draws of every pass from the same PRSS streams ----
+                        let twin = TestWorld::new_with(&cfg);
+                        let draws = &draws;
+                        macro_rules! twin_body {
+                            ($ctx:ident) => {{
+                                let h = role_idx($ctx.role());
+                                let v = $ctx.dzkp_validator(MaliciousProtocolSteps { protocol: &HybridStep::DifferentialPrivacy, validate: &HybridStep::DifferentialPrivacyValidate }, 1);
+                                let m = v.context();
+                                let sampler = OPRFPaddingDp::new(eps, NoiseParams::default().delta, 2_u32.pow(SS_BITS as u32)).unwrap();
+                                for (k, (step, excluded)) in [(DPStep::LaplacePass1, Role::H1), (DPStep::LaplacePass2, Role::H2), (DPStep::LaplacePass3, Role::H3)].into_iter().enumerate() {
+                                    let c = m.narrow(&step);
+                                    if let Some(dir) = c.role().direction_to(excluded) {
+                                        let (mut left, mut right) = c.prss_rng();
+                                        let rng = match dir {
+                                            Direction::Left => &mut right,
+                                            Direction::Right => &mut left,
+                                        };
+                                        let s: Vec<u32> = (0..$b).map(|_| sampler.sample(rng)).collect();
+                                        draws.lock().unwrap().insert((k, h), s);
+                                    }
+                                }
+                                drop(v);
+                            }};
+                        }
+                        if malicious {
+                            twin.malicious((), |ctx, ()| async move { twin_body!(ctx) }).await;
+                        } else {
+                            twin.semi_honest((), |ctx, ()| async move { twin_body!(ctx) }).await;
+                        }
+                    }
+                });
+                let l = log.lock().unwrap().clone();
+                let d = draws.lock().unwrap().clone();
+                (outcome, l, d)
+            }
+        }
+    };
+}
+noise_inst!(BA8, 32);
+noise_inst!(BA8, 256);
+noise_inst!(BA16, 32);
+noise_inst!(BA16, 256);
+noise_inst!(BA32, 32);
+noise_inst!(BA32, 256);
+
+fn noise_exec<OV: NoiseInst<B>, const B: usize>(p: &Value, explicit: Option<Vec<u32>>) -> RunRes {
+    let w = pu(p, "w");
+    let hist: Vec<u64> = p["hist"].as_array().cloned().unwrap_or_default().iter().map(|x| x.as_u64().unwrap_or(0)).collect();
+    let eps = pu64(p, "eps_milli") as f64 / 1000.0;
+    let knobs = &p["knobs"];
+    if hist.len() != B || eps <= 0.0 || eps > 20.0 || !pu(knobs, "active").is_power_of_two() || pu(knobs, "active") < 2 || pu(knobs, "read_size") == 0 {
+        return RunRes::invalid("noise: plan");
+    }
+    let spec = SchedSpec::from_json(&p["sched"], explicit);
+    let shape = format!("noise w{w} B{B} eps{} m{}", pu64(p, "eps_milli"), u8::from(pb(p, "malicious")));
+    let (outcome, res, draws) = OV::run(p, &spec, &hist);
+    match outcome.class {
+        "finished" => {}
+        "deadlock" | "stepcap" => return RunRes::violation("noise_no_progress", format!("{}: {}", outcome.class, truncate(&outcome.panic_msg.clone().unwrap_or_default(), 300)), shape, Some(outcome)),
+        _ => return RunRes::violation("noise_panic", format!("panic: {}", outcome.panic_msg.clone().unwrap_or_default()), shape, Some(outcome)),
+    }
+    let n = OPRFPaddingDp::new(eps, NoiseParams::default().delta, 8).map(|d| d.get_shift()).unwrap_or(0);
+    // the two generating helpers of every pass must have drawn the same values (pairwise generation)
+    let mut pass_draws: Vec<Vec<u32>> = Vec::new();
+    for k in 0..3usize {
+        let gens: Vec<&Vec<u32>> = (0..3).filter_map(|h| draws.get(&(k, h))).collect();
+        if gens.len() != 2 || gens[0] != gens[1] {
+            return RunRes::violation("noise_pair_disagrees", format!("pass {k}: {} helpers drew noise, equal: {}", gens.len(), gens.len() == 2 && gens[0] == gens[1]), shape, Some(outcome));
+        }
+        pass_draws.push(gens[0].clone());
+    }
+    let mut per: Vec<&Vec<(u128, u128)>> = Vec::new();
+    for h in 0..3 {
+        match res.get(&h) {
+            Some(Ok(v)) if v.len() == B => per.push(v),
+            other => return RunRes::violation("noise_error", format!("helper {}: {:?}", h + 1, other.map(|r| r.as_ref().map(Vec::len))), shape, Some(outcome)),
+        }
+    }
+    let modulus: i128 = 1i128 << w;
+    let mut minus_one = 0u64;
+    let mut extremes = 0u64;
+    for b in 0..B {
+        for h in 0..3 {
+            if per[h][b].1 != per[(h + 1) % 3][b].0 {
+                return RunRes::violation("noise_inconsistent_sharing", format!("bucket {b}: H{}.right != H{}.left", h + 1, (h + 1) % 3 + 1), shape, Some(outcome));
+            }
+        }
+        let got = (per[0][b].0 ^ per[1][b].0 ^ per[2][b].0) as i128;
+        let noise: i128 = (0..3).map(|k| i128::from(pass_draws[k][b]) - i128::from(n)).sum();
+        for k in 0..3 {
+            let d = i128::from(pass_draws[k][b]) - i128::from(n);
+            if d == -1 {
+                minus_one += 1;
+            }
+            if d == -i128::from(n) || d == i128::from(n) {
+                extremes += 1;
+            }
+        }
+        let want = (i128::from(hist[b]) + noise).rem_euclid(modulus);
+        if got != want {
+            let ds: Vec<i128> = (0..3).map(|k| i128::from(pass_draws[k][b]) - i128::from(n)).collect();
+            return RunRes::violation("noise_wrong_release",
+                format!("bucket {b}: exact {} + draws {ds:?} = {want} (mod 2^{w}), released {got} (epsilon {eps}, truncation point {n})", hist[b]), shape, Some(outcome));
+        }
+    }
+    let mut r = RunRes::pass(shape, outcome.decisions > 0, Some(outcome));
+    r.probe("draws_checked", (3 * B) as u64);
+    r.probe("draws_equal_minus_one", minus_one);
+    r.probe("draws_at_support_edge", extremes);
+    r.probe(&format!("width_{w}_runs"), 1);
+    r
+}
+
+// ------------------------------------------------------------------------------------------------
+// c12_padding
+// ------------------------------------------------------------------------------------------------
+
+pub struct PaddingScenario;
+
+impl Scenario for PaddingScenario {
+    fn name(&self) -> &'static str {
+        "c12_padding"
+    }
+    fn generate(&self, seed: u64, _tier: Tier) -> Value {
+        let mut r = Rng::sub(seed, 12_02);
+        let mut knobs = draw_knobs(&mut r);
+        knobs["active"] = json!(r.pick(&[8usize, 16, 32]));
+        let tamper = r.chance(1, 3);
+        json!({"kind": r.pick(&["oprf", "agg"]), "rows": r.range(0, 12), "malicious": tamper || r.chance(1, 2), "share_seed": r.next_u64() >> 12,
+            "tamper": tamper, "corrupt": r.below(3), "pass": r.below(3),
+            "knobs": knobs, "sched": SchedSpec::draw(&mut r, 5_000, 10_000_000)})
+    }
+    fn exec(&self, p: &Value, explicit: Option<Vec<u32>>) -> RunRes {
+        if !["oprf", "agg"].contains(&ps(p, "kind")) || pu(p, "corrupt") > 2 || pu(p, "pass") > 2 {
+            return RunRes::invalid("padding: plan");
+        }
+        if ps(p, "kind") == "oprf" { padding_exec::<IndistinguishableHybridReport<BA8, BA3>>(p, explicit) } else { padding_exec::<AggregateableHybridReport<BA8, BA3>>(p, explicit) }
+    }
+}
+
+trait PadRow: crate::protocol::ipa_prf::oprf_padding::Paddable + Clone + Send + Sync + 'static {
+    fn make(i: usize, rng: &mut StdRng) -> [Self; 3];
+    /// (value, breakdown key) as (left,right) pairs
+    fn open(&self) -> ((u128, u128), (u128, u128));
+}
+impl PadRow for IndistinguishableHybridReport<BA8, BA3> {
+    fn make(i: usize, rng: &mut StdRng) -> [Self; 3] {
+        let mk: [Replicated<BA64>; 3] = BA64::truncate_from(7000 + i as u128).share_with(rng);
+        let v: [Replicated<BA3>; 3] = BA3::truncate_from(1 + (i % 7) as u128).share_with(rng);
+        let bk: [Replicated<BA8>; 3] = BA8::truncate_from(1 + (i % 200) as u128).share_with(rng);
+        std::array::from_fn(|h| IndistinguishableHybridReport { match_key: mk[h].clone(), value: v[h].clone(), breakdown_key: bk[h].clone() })
+    }
+    fn open(&self) -> ((u128, u128), (u128, u128)) {
+        ((self.value.left().as_u128(), self.value.right().as_u128()), (self.breakdown_key.left().as_u128(), self.breakdown_key.right().as_u128()))
+    }
+}
+impl PadRow for AggregateableHybridReport<BA8, BA3> {
+    fn make(i: usize, rng: &mut StdRng) -> [Self; 3] {
+        let v: [Replicated<BA3>; 3] = BA3::truncate_from(1 + (i % 7) as u128).share_with(rng);
+        let bk: [Replicated<BA8>; 3] = BA8::truncate_from(1 + (i % 200) as u128).share_with(rng);
+        std::array::from_fn(|h| IndistinguishableHybridReport { match_key: (), value: v[h].clone(), breakdown_key: bk[h].clone() })
+    }
+    fn open(&self) -> ((u128, u128), (u128, u128)) {
+        ((self.value.left().as_u128(), self.value.right().as_u128()), (self.breakdown_key.left().as_u128(), self.breakdown_key.right().as_u128()))
+    }
+}
+
+type PadRes = Result<Vec<((u128, u128), (u128, u128))>, String>;
+
+fn padding_run<T: PadRow>(p: &Value, spec: &SchedSpec, sites: Vec<Site>) -> (SimOutcome, BTreeMap<usize, PadRes>, BTreeMap<ChanKey, ChanStat>, usize) {
+    let rows = pu(p, "rows");
+    let malicious = pb(p, "malicious");
+    let knobs = &p["knobs"];
+    let (active, read_size, world_seed) = (pu(knobs, "active"), pu(knobs, "read_size"), pu64(knobs, "world_seed"));
+    let share_seed = pu64(p, "share_seed");
+    let (tamper, interceptor) = faults::tamper_many(sites);
+    let log: StdArc<StdMutex<BTreeMap<usize, PadRes>>> = StdArc::new(StdMutex::new(BTreeMap::new()));
+    let log2 = StdArc::clone(&log);
+    let outcome = sim_async(spec, StdArc::new(AtomicBool::new(false)), move || {
+        let (log, interceptor) = (StdArc::clone(&log2), interceptor.clone());
+        async move {
+            let world = TestWorld::new_with(&world_config(world_seed, active, read_size, Some(interceptor)));
+            let mut rng = StdRng::seed_from_u64(share_seed);
+            let mut per: [Vec<T>; 3] = [Vec::new(), Vec::new(), Vec::new()];
+            for i in 0..rows {
+                let [a, b, c] = T::make(i, &mut rng);
+                per[0].push(a);
+                per[1].push(b);
+                per[2].push(c);
+            }
+            let log = &log;
+            let params = PaddingParameters::relaxed();
+            if malicious {
+                world.malicious(Shared3(per), |ctx, rows: Vec<T>| async move {
+                    let h = role_idx(ctx.role());
+                    let r = apply_dp_padding::<_, T, 256>(ctx, rows, &params).await;
+                    log.lock().unwrap().insert(h, r.map(|v| v.iter().map(PadRow::open).collect()).map_err(|e| e.to_string()));
+                }).await;
+            } else {
+                world.semi_honest(Shared3(per), |ctx, rows: Vec<T>| async move {
+                    let h = role_idx(ctx.role());
+                    let r = apply_dp_padding::<_, T, 256>(ctx, rows, &params).await;
+                    log.lock().unwrap().insert(h, r.map(|v| v.iter().map(PadRow::open).collect()).map_err(|e| e.to_string()));
+                }).await;
+            }
+        }
+    });
+    let t = tamper.log.lock().unwrap();
+    (outcome, log.lock().unwrap().clone(), t.chans.clone(), t.fired.len())
+}
+
+fn padding_exec<T: PadRow>(p: &Value, explicit: Option<Vec<u32>>) -> RunRes {
+    let rows = pu(p, "rows");
+    let spec = SchedSpec::from_json(&p["sched"], explicit);
+    let shape = format!("padding {} r{rows} m{} t{}", ps(p, "kind"), u8::from(pb(p, "malicious")), u8::from(pb(p, "tamper")));
+    let (outcome, res, inv, _) = padding_run::<T>(p, &spec, Vec::new());
+    match outcome.class {
+        "finished" => {}
+        "deadlock" | "stepcap" => return RunRes::violation("padding_no_progress", format!("{}", outcome.class), shape, Some(outcome)),
+        _ => return RunRes::violation("padding_panic", format!("panic: {}", outcome.panic_msg.clone().unwrap_or_default()), shape, Some(outcome)),
+    }
+    let mut per = Vec::new();
+    for h in 0..3 {
+        match res.get(&h) {
+            Some(Ok(v)) => per.push(v),
+            other => return RunRes::violation("padding_error", format!("helper {}: {:?}", h + 1, other.map(|r| r.as_ref().map(Vec::len))), shape, Some(outcome)),
+        }
+    }
+    if per[0].len() != per[1].len() || per[1].len() != per[2].len() || per[0].len() < rows {
+        return RunRes::violation("padding_counts_differ", format!("helpers hold {}/{}/{} rows after padding {rows} real rows", per[0].len(), per[1].len(), per[2].len()), shape, Some(outcome));
+    }
+    let total = per[0].len();
+    let mut real_seen = 0usize;
+    for i in 0..total {
+        let mut vals = [0u128; 2];
+        for f in 0..2 {
+            let s: Vec<(u128, u128)> = (0..3).map(|h| if f == 0 { per[h][i].0 } else { per[h][i].1 }).collect();
+            for h in 0..3 {
+                if s[h].1 != s[(h + 1) % 3].0 {
+                    return RunRes::violation("padding_inconsistent_sharing", format!("row {i} field {f}: H{}.right != H{}.left", h + 1, (h + 1) % 3 + 1), shape, Some(outcome));
+                }
+            }
+            vals[f] = s[0].0 ^ s[1].0 ^ s[2].0;
+        }
+        if i < rows {
+            // the real rows come first and are untouched
+            if vals[0] != 1 + (i % 7) as u128 || vals[1] != 1 + (i % 200) as u128 {
+                return RunRes::violation("padding_altered_real_row", format!("row {i} now opens to value {} key {}", vals[0], vals[1]), shape, Some(outcome));
+            }
+            real_seen += 1;
+        } else if vals[0] != 0 {
+            return RunRes::violation("padding_dummy_contributes", format!("dummy row {i} has value {} (breakdown key {})", vals[0], vals[1]), shape, Some(outcome));
+        }
+    }
+    let dummies = total - real_seen;
+    if !pb(p, "tamper") {
+        let mut r = RunRes::pass(shape, outcome.decisions > 0, Some(outcome));
+        r.probe("dummy_rows", dummies as u64);
+        r.probe("padding_runs", 1);
+        return r;
+    }
+    // forged count: the corrupt generating helper reports a different number of dummy rows to the excluded helper
+    let corrupt = pu(p, "corrupt");
+    let pass = pu(p, "pass");
+    let cands: Vec<ChanKey> = inv.keys().filter(|c| c.src == corrupt && c.gate.contains("send_num_fake_records")).cloned().collect();
+    if cands.is_empty() {
+        return RunRes::inconclusive("no_site", "corrupt helper sends no count in this run".into(), shape, Some(outcome));
+    }
+    let chan = cands[pass % cands.len()].clone();
+    let excluded = chan.dst;
+    let site = Site { chan, chunk: 0, offset: 0, pattern: "add1".into(), stream_off: None };
+    let (o2, res2, _, fired) = padding_run::<T>(p, &spec, vec![site.clone()]);
+    if fired == 0 {
+        return RunRes::inconclusive("tamper_not_delivered", "count message not reached".into(), shape, Some(o2));
+    }
+    let mut r = match res2.get(&excluded) {
+        Some(Ok(v)) => RunRes::violation("padding_forged_count_accepted", format!("helper {} told helper {} a different dummy count ({}) and it continued with {} rows", corrupt + 1, excluded + 1, site.to_json(), v.len()), shape, Some(o2.clone())),
+        _ => RunRes::pass(shape, true, Some(o2.clone())),
+    };
+    r.fault("F1_forged_dummy_count", 1);
+    r.probe("padding_tamper_runs", 1);
+    r
+}
+
+// ------------------------------------------------------------------------------------------------
+// c12_law: ride-along invariants on the configuration grid (no schedule, no fault in them)
+// ------------------------------------------------------------------------------------------------
+
+pub struct LawScenario;
+
+impl Scenario for LawScenario {
+    fn name(&self) -> &'static str {
+        "c12_law"
+    }
+    fn generate(&self, seed: u64, _tier: Tier) -> Value {
+        let mut r = Rng::sub(seed, 12_03);
+        let eps_milli = r.pick(&[10u64, 50, 100, 500, 1000, 2000, 5000, 10000, 20000]);
+        let delta_exp = r.range(2, 12);
+        let sens = r.pick(&[1usize, 1, 2, 3, 8, 10, 50, 200, 1000]);
+        json!({"eps_milli": eps_milli, "delta_exp": delta_exp, "sens": sens, "draws": 20000, "sample_seed": r.next_u64() >> 12})
+    }
+    fn exec(&self, p: &Value, _explicit: Option<Vec<u32>>) -> RunRes {
+        let eps = pu64(p, "eps_milli") as f64 / 1000.0;
+        let delta = 10f64.powi(-(pu(p, "delta_exp") as i32));
+        let sens = pu(p, "sens") as u32;
+        let draws = pu(p, "draws");
+        if eps <= 0.0 || sens == 0 || sens > 1000 || draws == 0 || draws > 2_000_000 {
+            return RunRes::invalid("law: plan");
+        }
+        let shape = format!("law eps{} d1e-{} s{sens}", pu64(p, "eps_milli"), pu(p, "delta_exp"));
+        // --- constructors accept exactly the documented ranges ---
+        let np = NoiseParams::new(eps, delta, 8, 0.5, 1.0, 1.0, 1.0, 1.0, 1.0);
+        if np.is_err() {
+            return RunRes::violation("noise_params_rejects_valid", format!("NoiseParams::new(epsilon {eps}, delta {delta}, ..) was rejected: {:?}", np.err()), shape, None);
+        }
+        for (e, d, what) in [(0.0, delta, "epsilon = 0"), (-1.0, delta, "epsilon < 0"), (eps, 0.0, "delta = 0"), (eps, -0.5, "delta < 0")] {
+            if NoiseParams::new(e, d, 8, 0.5, 1.0, 1.0, 1.0, 1.0, 1.0).is_ok() {
+                return RunRes::violation("noise_params_accepts_invalid", format!("NoiseParams::new accepted {what}"), shape, None);
+            }
+        }
+        if OPRFPaddingDp::new(0.0, delta, sens).is_ok() || OPRFPaddingDp::new(eps, 0.0, sens).is_ok() || OPRFPaddingDp::new(eps, 1.0, sens).is_ok() {
+            return RunRes::violation("padding_dp_accepts_invalid", "OPRFPaddingDp::new accepted epsilon = 0, delta = 0 or delta = 1".into(), shape, None);
+        }
+        let dp = match OPRFPaddingDp::new(eps, delta, sens) {
+            Ok(d) => d,
+            Err(e) => return RunRes::violation("padding_dp_rejects_valid", format!("OPRFPaddingDp::new({eps}, {delta}, {sens}) rejected: {e}"), shape, None),
+        };
+        // --- truncation point: smallest n >= sensitivity whose one-sided outer mass of `sens` points is <= delta ---
+        let n = dp.get_shift();
+        let tail = |n: u32| -> f64 {
+            // pmf(x) = A * r^{|x-n|} on 0..=2n ; outer `sens` values on the left side are x = 0..sens-1, i.e. |x-n| = n..n-sens+1
+            let r = (-eps).exp();
+            let norm: f64 = 1.0 + 2.0 * (1..=n).map(|k| r.powi(k as i32)).sum::<f64>();
+            (0..sens.min(n + 1)).map(|j| r.powi((n - j) as i32)).sum::<f64>() / norm
+        };
+        let rel = 1e-9;
+        if n < sens || tail(n) > delta * (1.0 + rel) {
+            return RunRes::violation("truncation_point_too_small", format!("n = {n}: outer mass {} > delta {delta} (or n < sensitivity {sens})", tail(n)), shape, None);
+        }
+        if n > sens && tail(n - 1) <= delta * (1.0 - rel) {
+            return RunRes::violation("truncation_point_not_minimal", format!("n = {n} but n-1 already satisfies the criterion (outer mass {} <= delta {delta})", tail(n - 1)), shape, None);
+        }
+        // --- the sampler follows pmf ~ exp(-eps |x-n|) on 0..2n: chi-square with a 6-sigma (p < 1e-9) threshold ---
+        let mut rng = StdRng::seed_from_u64(pu64(p, "sample_seed"));
+        let mut counts: BTreeMap<u32, u64> = BTreeMap::new();
+        for _ in 0..draws {
+            let x = dp.sample(&mut rng);
+            if x > 2 * n {
+                return RunRes::violation("sample_outside_support", format!("sample {x} outside 0..={}", 2 * n), shape, None);
+            }
+            *counts.entry(x).or_default() += 1;
+        }
+        let r_ = (-eps).exp();
+        let norm: f64 = 1.0 + 2.0 * (1..=n).map(|k| r_.powi(k as i32)).sum::<f64>();
+        // bins: distance d = |x-n| with expected count >= 8 kept per signed side, the rest pooled
+        let mut chi = 0.0;
+        let mut dof = 0usize;
+        let mut pooled_obs = 0.0;
+        let mut pooled_exp = 0.0;
+        for x in 0..=2 * n {
+            let d = (i64::from(x) - i64::from(n)).unsigned_abs() as i32;
+            let e = draws as f64 * r_.powi(d) / norm;
+            let o = counts.get(&x).copied().unwrap_or(0) as f64;
+            if e >= 8.0 {
+                chi += (o - e) * (o - e) / e;
+                dof += 1;
+            } else {
+                pooled_obs += o;
+                pooled_exp += e;
+            }
+            if x > 4000 && e < 1e-12 {
+                // far tail of a very wide distribution: nothing more to learn
+            }
+        }
+        if pooled_exp >= 8.0 {
+            chi += (pooled_obs - pooled_exp) * (pooled_obs - pooled_exp) / pooled_exp;
+            dof += 1;
+        } else if pooled_obs > pooled_exp + 12.0 + 8.0 * pooled_exp.sqrt() {
+            return RunRes::violation("sample_tail_too_heavy", format!("{pooled_obs} draws in a region of expected mass {pooled_exp:.3}"), shape, None);
+        }
+        let k = dof.saturating_sub(1).max(1) as f64;
+        let z = 6.5;
+        let thr = k * (1.0 - 2.0 / (9.0 * k) + z * (2.0 / (9.0 * k)).sqrt()).powi(3);
+        if chi > thr {
+            return RunRes::violation("sample_law_mismatch", format!("chi-square {chi:.1} over {dof} bins exceeds {thr:.1} (epsilon {eps}, n {n}, {draws} draws)"), shape, None);
+        }
+        let mut res = RunRes::pass(shape, true, None);
+        res.probe("law_configs", 1);
+        res.probe("law_draws", draws as u64);
+        res.probe("law_support_points_hit", counts.len() as u64);
+        res
+    }
+}
